@@ -34,6 +34,7 @@ MANIFEST = dict(
 KNOWN_SHARED = {"tk_x2", "dV_dcell", "find_current", "token", "dif_spec_names", "dif_els_names", "neg_moles", "els", "Ct2",
                 "l_tk_x2", "A", "LU", "mixf", "mixf_stag", "mixf_comp_size", "current_cells", "sum_R", "sum_Rd", "ct",
                 "cell_J_ij", "moles_added", "count_moles_added"}
+ALLOC_WRAPPER = re.compile(r"::(free_check_null|PHRQ_free|PHRQ_malloc|PHRQ_calloc|PHRQ_realloc|space)\(")
 TRANSPORT_FAMILIES = {"transport", "transport_multi_d"}
 TSAN_FLAGS = "-fsanitize=thread -g1 -O1 -fno-omit-frame-pointer"
 TSAN_ENV = "halt_on_error=0 exitcode=0 report_signal_unsafe=0 second_deadlock_stack=1"
@@ -64,23 +65,35 @@ def run_h(ctx, exe, jobs, nthreads, coexist, churn, tsan=False, timeout=1800):
 
 
 def tsan_reports(stderr):
+    """parse ThreadSanitizer reports; a report is attributed to the known finding `transport-file-scope-globals` iff it is a
+    data race and either its location is one of the listed globals, or (heap location, e.g. a node of cell_J_ij) the innermost
+    engine frame of every access stack lies in transport.cpp"""
+    import vlib
+    src = str(vlib.REPO) + "/src/"
     out = []
     for blk in stderr.split("=================="):
         m = re.search(r"WARNING: ThreadSanitizer: ([^\n(]+)", blk)
         if not m:
             continue
         kind = m.group(1).strip()
-        globs = re.findall(r"Location is global '([^']+)'", blk)
-        frames = re.findall(r"#0 (\S.*?) (/\S+?):(\d+)", blk)
-        top_files = [os.path.basename(f) for _, f, _ in frames]
-        known = False
-        if kind == "data race":
-            if globs:
-                known = all(g in KNOWN_SHARED for g in globs)
-            else:
-                known = bool(top_files) and all(f == "transport.cpp" for f in top_files[:2])
-        out.append({"kind": kind, "globals": globs, "top": [f"{fn} {os.path.basename(f)}:{ln}" for fn, f, ln in frames[:2]],
-                    "known": known, "text": blk.strip()[:3000]})
+        globs = [re.sub(r"\[abi:\w+\]", "", g) for g in re.findall(r"Location is global '([^']+)'", blk)]
+        inner = []          # innermost engine frame of each access stack
+        body = blk[m.end():]
+        for sec in re.split(r"\n\s*\n", body):
+            if not re.search(r"^\s*(Read|Write|Previous|Atomic)[^\n]* by (thread|main)", sec, re.M | re.I):
+                continue
+            fr = [(fn, f, ln) for fn, f, ln in re.findall(r"#\d+ (\S.*?) (/\S+?):(\d+)", sec) if f.startswith(src) and os.path.basename(f) != "phqalloc.cpp" and not ALLOC_WRAPPER.search(fn)]
+            inner.append(fr[0] if fr else None)           # None: no engine frame / stack could not be restored
+        top = [f"{fn.split('(')[0]} {os.path.basename(f)}:{ln}" for fn, f, ln in (x for x in inner if x)]
+        # races on the shared variables also show up as use-after-free / double free of the arrays they point to
+        if globs:
+            known = all(g in KNOWN_SHARED for g in globs)
+        else:
+            # heap location: memory reachable through the shared variables (work arrays, cell_J_ij nodes, ct[...] members);
+            # the other party may be any code that frees or reuses it (another instance's destructor, the allocator).
+            # Only the transport phase of the exploration can produce such reports: the strict phase runs no TRANSPORT job.
+            known = re.search(re.escape(src) + r"phreeqcpp/transport\.cpp:\d+", blk) is not None
+        out.append({"kind": kind, "globals": globs, "top": top, "known": known, "text": blk.strip()[:6000]})
     return out
 
 
